@@ -65,6 +65,11 @@ CLAIMS['C03'] = ('proof',
     'mathematical sum (i128, cannot overflow), simd_min_i64/simd_max_i64 are None iff empty else the minimum/maximum, simd_count is the length - i.e. the SQL definitions the row path implements. '
     'The gate should_use_columnar, NULL handling and result typing in simd_aggregate_i64 / columnar/aggregate.rs, f64 kernels, HAVING/ORDER/LIMIT on the columnar result are not under contract.',
     _B_NOTE, 'contract-based deductive verification: Verus on mechanically extracted functions with loop invariants', 'DESIGN.md 5/C03')
+CLAIMS['C29'] = ('proof',
+    'The decision logic of PasswordStore::verify_md5 and verify_cleartext is proved (Verus) with the cryptography as uninterpreted functions: cleartext verification accepts iff the user exists with an $argon2 secret that parses and '
+    'verifies; MD5 verification accepts iff the user exists with a {MD5} secret and the response is "md5" ++ D(secret, user, salt) - for responses carrying the md5 prefix; acceptance of the bare digest without the prefix is a recorded finding '
+    '(pinned by the repository\'s own test). MD5/Argon2/PHC implementations, the hex formatting of compute_md5_password, timing and the connection state machine are assumed, not verified.',
+    _B_NOTE, 'contract-based deductive verification: Verus on mechanically extracted functions with uninterpreted digests', 'DESIGN.md 5/C29')
 NOT_APPLICABLE = {
     'C04': 'concurrency/rayon scheduling: Kani has no threads, Verus needs permission-typed code; the determinism-relevant comparator laws are claimed under C21/C08',
     'C05': 'every anchor is an AST-to-plan transformation or a join operator over Database/evaluator state: AST walks do not finish in CBMC and the code is outside the Verus subset',
